@@ -462,8 +462,12 @@ func (x *Exec) applyContract(st *State, con *Contract, name string, pnames []str
 	for k, v := range env.vars {
 		oldVars[k] = v
 	}
-	// effects
+	// effects. The allocation counter is advanced first: typing invariants of the heap versions
+	// created below must refer to the counter AFTER the callee's allocations.
 	if !con.NoEffect {
+		oa := x.heap(st, "$alloc", "Int")
+		na := x.havocHeap(st, "$alloc", "Int")
+		st.assume(fmt.Sprintf("(>= %s %s)", na, oa))
 		if !con.ModStated {
 			if con.Trusted || con.Pkg == "" {
 				// trusted contract without modifies: no effect on modelled heaps
@@ -472,12 +476,9 @@ func (x *Exec) applyContract(st *State, con *Contract, name string, pnames []str
 			}
 		} else {
 			for _, item := range con.Modifies {
-				x.applyModifies(st, env, con, item)
+				x.applyModifies(st, env, con, item, oa)
 			}
 		}
-		oa := x.heap(st, "$alloc", "Int")
-		na := x.havocHeap(st, "$alloc", "Int")
-		st.assume(fmt.Sprintf("(>= %s %s)", na, oa))
 	}
 	res := x.freshResults(st, sig)
 	if con.Det {
@@ -708,7 +709,7 @@ func (x *Exec) pointModifies(env *SpecEnv, item string) []pointMod {
 	return out
 }
 
-func (x *Exec) applyModifies(st *State, env *SpecEnv, con *Contract, item string) {
+func (x *Exec) applyModifies(st *State, env *SpecEnv, con *Contract, item string, allocBefore string) {
 	item = strings.TrimSpace(item)
 	fresh := false
 	if strings.HasPrefix(item, "fresh ") {
@@ -730,7 +731,7 @@ func (x *Exec) applyModifies(st *State, env *SpecEnv, con *Contract, item string
 			names = append(names, n)
 		}
 		sort.Strings(names)
-		a := x.heap(st, "$alloc", "Int")
+		a := allocBefore
 		for _, n := range names {
 			old := x.heap(st, n, tgt.heaps[n])
 			nv := x.havocHeap(st, n, tgt.heaps[n])
